@@ -333,12 +333,21 @@ def r5(ctx, rep):
     rep.check(tc is not None and tc.get("partition") == "self.partition.clone()" and tc.get("frame") == "self.window.clone()" and tc.get("sort") == "sort",
               "flatten:fields", f"every flattened transform must carry the current partition / frame / sort; found {tc}", file=fl["file"], line=fl["l"], fn=fl["path"])
     # Window arm sets and resets the frame
-    sets = [show(n["rhs"], maxdepth=6) for n in walk(fl["body"]) if n.get("k") == "assign" and show(n["lhs"]) == "self.window"]
+    warm = [arm for m in matches_of(fl["body"]) for arm in m["arms"] if "TransformKind::Window" in show(arm["pat"], maxdepth=6)]
+    sets = [show(n["rhs"], maxdepth=6) for arm in warm for n in walk(arm["body"]) if n.get("k") == "assign" and show(n["lhs"]) == "self.window"]
     rep.check(sets == ["WindowFrame{kind: kind, range: range}", "WindowFrame::default()"], "flatten:window-scope",
               f"the window arm must set the frame for its pipeline and reset it afterwards; assignments found: {sets}", file=fl["file"], line=fl["l"], fn=fl["path"])
     # who may write which piece of the Flattener's state, per arm of the transform match
     allowed = {"Sort": {"sort"}, "Group": {"sort", "sort_undone", "partition", "replace_map"}, "Window": {"window", "replace_map"},
-               "Append|Join": {"sort"}, "*": set()}
+               "Append|Join": {"sort", "sort_undone", "partition", "window"}, "*": set()}
+    # ... the Append|Join arm may touch them only to isolate its argument: moved out before the argument is folded, put back after it
+    import C03
+    iso = C03.join_append_isolation(fl)
+    for fld in ("partition", "window"):
+        saved, emptied, restored = iso.get(fld, (False, False, False))
+        rep.check(saved and emptied and restored, f"flatten:join-append-isolated:{fld}", f"the argument of a join / append is a pipeline of its own: `self.{fld}` must be moved out before it is folded and put back "
+                  "afterwards, otherwise a `take` / aggregate inside the argument is partitioned by (framed like) the enclosing group / window of the OUTER pipeline "
+                  "(`from a | group g (append (from b | sort x | take 3))` gave `ROW_NUMBER() OVER (PARTITION BY g ORDER BY x)` over b)", file=fl["file"], line=fl["l"], fn=fl["path"])
     tm = None
     for m in matches_of(fl["body"]):
         if any("TransformKind::Sort" in show(a["pat"], maxdepth=6) for a in m["arms"]):
